@@ -40,7 +40,22 @@ WEIRD = ["", " ", "a,b", 'say "hi"', "x;y", "αβ", "tab\tbed", "'", "0", "-3", 
 # --------------------------------------------------------------------------- specs -> real objects
 
 def gen_spec(rng):
-    """A JSON-serialisable description of a block built with the public API."""
+    """A JSON-serialisable description of a block built with the public API
+    (crossing size, weights included, at most 12: RandomGen gets very slow on
+    larger weighted crossings, which is not this property's business)."""
+    while True:
+        spec = gen_spec1(rng)
+        size = 1
+        for f in spec["simple"]:
+            if f["name"] in spec["crossing"]:
+                size *= sum(f["weights"])
+        if spec["derived"] and spec["derived"]["name"] in spec["crossing"]:
+            size *= 2
+        if size <= 12:
+            return spec
+
+
+def gen_spec1(rng):
     nsimple = rng.randint(1, 3)
     names = rng.sample(FNAMES, nsimple + 2)
     simple = []
@@ -137,6 +152,25 @@ def quiet(f, *a, **k):
         return f(*a, **k)
 
 
+class CaseTimeout(Exception):
+    pass
+
+
+@contextlib.contextmanager
+def time_limit(seconds):
+    import signal
+
+    def handler(*a):
+        raise CaseTimeout()
+    old = signal.signal(signal.SIGALRM, handler)
+    signal.alarm(seconds)
+    try:
+        yield
+    finally:
+        signal.alarm(0)
+        signal.signal(signal.SIGALRM, old)
+
+
 def synthesize(spec):
     """Build the block and synthesize; observes add_implied_levels / sample_continuous."""
     import sweetpea
@@ -160,7 +194,8 @@ def synthesize(spec):
     block.sample_continuous = cont
     random.seed(spec["seed"])
     gen = getattr(sweetpea, spec["gen"])
-    ex = quiet(synthesize_trials, block, spec["samples"], gen)
+    with time_limit(20):
+        ex = quiet(synthesize_trials, block, spec["samples"], gen)
     del block.add_implied_levels
     del block.sample_continuous
     return block, objs, ex, rec
@@ -497,7 +532,7 @@ def _run(ctx, res, rng, nblocks, nraw, tmp):
     expect = []        # (layer, real canonical value, case id)
     mism = []
     found = {}         # sig -> (size, what, replay)
-    stats = {"synth_failed": 0, "hidden": 0, "continuous": 0, "derived": 0, "derived_dup": 0, "unsupported": 0}
+    stats = {"synth_failed": 0, "synth_failures": {}, "hidden": 0, "continuous": 0, "derived": 0, "derived_dup": 0, "unsupported": 0}
 
     def note(sig, what, replay, size):
         if sig not in found or size < found[sig][0]:
@@ -511,6 +546,7 @@ def _run(ctx, res, rng, nblocks, nraw, tmp):
             arb = eval_block_case(spec, tmp, "a%d" % bi, arbitrary_rng=random.Random(arb_seed))
         except Exception as e:  # noqa  (construction / synthesis failures belong to C08/C15)
             stats["synth_failed"] += 1
+            stats["synth_failures"][type(e).__name__] = stats["synth_failures"].get(type(e).__name__, 0) + 1
             res.count(None, nontrivial=False)
             continue
         hidden = any(k[0] == "h" for k in real["design"])
@@ -534,16 +570,16 @@ def _run(ctx, res, rng, nblocks, nraw, tmp):
                                                     for k, vs in real["synth"][ei].items()), bi))
             for case in (real, arb):
                 wex = [w_exp(list(e.items())) for e in case["exps"]]
-                lines.append(sexp([Atom("btuples"), cr, d, wex]))
+                lines.append(sexp([Atom("btuples"), d, wex]))
                 t = case["tuples_raw"]
                 expect.append(("tuples", t if t[0] != "ok" else
                                ("ok", [[tuple(canon_value(v) for v in row) for row in e] for e in t[1]]), bi))
-                lines.append(sexp([Atom("bdicts"), cr, d, wex]))
+                lines.append(sexp([Atom("bdicts"), d, wex]))
                 dd = case["dicts_raw"]
                 expect.append(("dicts", dd if dd[0] != "ok" else
                                ("ok", [[sorted((canon_key(k), canon_value(v)) for k, v in row.items()) for row in e]
                                        for e in dd[1]]), bi))
-                lines.append(sexp([Atom("bcsv"), cr, d, wex]))
+                lines.append(sexp([Atom("bcsv"), d, wex]))
                 expect.append(("csv", case["csv"], bi))
         except Unsupported:
             stats["unsupported"] += 1
